@@ -27,6 +27,7 @@ LEVEL_TEXT = ('Bounded-exhaustive model checking over inputs x read schedules of
 LEVEL_NOTE = 'Trusted: Python equality of the loaded objects; the in-memory device (read/write/close) standing for a file.'
 TECHNIQUE = 'stateless bounded-exhaustive exploration of inputs x short-read schedules against the identity round-trip'
 
+NOWHERE = '/nonexistent-directory-c19/name.json'      # a name only the custom open_obj can resolve
 VALUES = [0, -1, 2 ** 63 - 1, -2 ** 63, 1.5, 1e-7, True, None, '', 'a', 'é\U0001F600', 'line\nbreak', 'q"uote\\', [1, [2]], {'k': {}}]
 COMP = [None, 'gzip', 'zstd']
 
@@ -102,7 +103,7 @@ def run_case(case, acc):
     data = dev.content()
     # through a custom open_obj the same bytes must be written, and the file closed
     dev2 = Device()
-    s2 = dump(objs, comp, 'name.json', open_obj=lambda f, mode, encoding=None: dev2)
+    s2 = dump(objs, comp, NOWHERE, open_obj=lambda f, mode, encoding=None: dev2)
     acc.evals += 1
     if s2.error is not None or dev2.content() != data:
         return [viol(comp, 'custom-open_obj-writes-other-bytes', {'objects': objs, 'error': repr(s2.error)})]
@@ -117,7 +118,7 @@ def run_case(case, acc):
     for k, sched in enumerate(schedules):
         via_open = (k % 2 == 1)
         d = Device(data, sched)
-        r = load('name.json', comp, open_obj=lambda f, mode, encoding=None: d) if via_open else load(d, comp)
+        r = load(NOWHERE, comp, open_obj=lambda f, mode, encoding=None: d) if via_open else load(d, comp)
         acc.evals += 1
         acc.events += d.reads + 1
         acc.traces += 1
